@@ -663,4 +663,5 @@ func runC18(c *Ctx) {
 	c18Send(c)
 	c18Recv(c)
 	c18E2E(c)
+	c18Straddle(c)
 }
